@@ -91,10 +91,10 @@ class CustomOperatorAdd(OperatorAdd):
         left, right = tokens.get_left(), tokens.get_right()
         if left is None and isinstance(right, Quantity):
             tokens.put_left(right)        
-        elif isinstance(right, CustomOperatorAdd):
+        elif not isinstance(left, Quantity) and isinstance(right, CustomOperatorAdd):
             tokens.put_left(left)
             tokens.put_right(right)
-        elif isinstance(right, CustomOperatorSub):
+        elif not isinstance(left, Quantity) and isinstance(right, CustomOperatorSub):
             tokens.put_left(left)
             tokens.put_right(right)
         elif not isinstance(left, Quantity) and isinstance(right, Quantity):
@@ -116,10 +116,10 @@ class CustomOperatorSub(OperatorSub):
         left, right = tokens.get_left(), tokens.get_right()
         if left is None and isinstance(right, Quantity):
             tokens.put_left(-right)
-        elif isinstance(right, CustomOperatorAdd):
+        elif not isinstance(left, Quantity) and isinstance(right, CustomOperatorAdd):
             tokens.put_left(left)
             tokens.put_right(CustomOperatorSub())
-        elif isinstance(right, CustomOperatorSub):
+        elif not isinstance(left, Quantity) and isinstance(right, CustomOperatorSub):
             tokens.put_left(left)
             tokens.put_right(CustomOperatorAdd())
         elif not isinstance(left, Quantity) and isinstance(right, Quantity):
